@@ -3,16 +3,28 @@
 package connectconformance
 
 import (
+	"context"
 	"errors"
 	"fmt"
+	"io"
+	"os"
+	"path/filepath"
 	"strings"
 	"sync"
+	"sync/atomic"
+	"testing"
+	"time"
 
+	"connectrpc.com/conformance/internal"
 	conformancev1 "connectrpc.com/conformance/internal/gen/proto/go/connectrpc/conformance/v1"
+	"google.golang.org/protobuf/encoding/protojson"
+	"google.golang.org/protobuf/proto"
 )
 
 func init() {
 	verifKinds["c04.results"] = verifC04Results
+	verifKinds["c04.flow"] = verifC04Flow
+	verifKinds["c04.run"] = verifC04Run
 }
 
 // c04Printer records every formatted message (one element per Printf call).
@@ -184,4 +196,385 @@ func verifC04Results(args []vsx) vsx {
 	ok2 := results.report(pr)
 	second := c04ParseReport(ok2, pr.take())
 	return vL(first, second)
+}
+
+// ---------------------------------------------------------------------------
+// c04.flow: the real runClient / clientProcessRunner, the real
+// runTestCasesForServer and the real report(), with client and servers running
+// as in-process "processes" (runInProcess, the starter the runner itself uses for
+// the reference implementations).  The loop of run() is repeated here (batches in
+// order, isRunning check, closeSend, waitForResponses) and the verdict is composed
+// as Run does.  The send loop is held in lock-step with the scripted client through
+// the "Sending request for ..." log line, so the client's exit point is exact.
+// ---------------------------------------------------------------------------
+
+type c04Scenario struct {
+	kf, kfl   []string
+	batches   [][]string // names per batch
+	serverOK  []bool
+	replies   map[string]int64
+	exitAfter int
+	exitErr   bool
+}
+
+func c04ParseScenario(args []vsx) c04Scenario {
+	s := c04Scenario{kf: args[0].strs(), kfl: args[1].strs(), replies: map[string]int64{},
+		exitAfter: int(args[3].i), exitErr: args[4].i != 0}
+	for _, b := range args[2].l {
+		var names []string
+		for _, c := range b.l[1].l {
+			names = append(names, c.l[0].str())
+			s.replies[c.l[0].str()] = c.l[1].i
+		}
+		s.batches = append(s.batches, names)
+		s.serverOK = append(s.serverOK, b.l[0].i != 0)
+	}
+	return s
+}
+
+func c04Reply(name string, reply int64) *conformancev1.ClientCompatResponse {
+	resp := &conformancev1.ClientCompatResponse{TestName: name}
+	switch reply {
+	case 0:
+		resp.Result = &conformancev1.ClientCompatResponse_Response{Response: c04Actual(true)}
+	case 1:
+		resp.Result = &conformancev1.ClientCompatResponse_Response{Response: c04Actual(false)}
+	case 2:
+		resp.Result = &conformancev1.ClientCompatResponse_Error{Error: &conformancev1.ClientErrorResult{Message: "nope"}}
+	case 3:
+		// neither
+	default:
+		return nil // silent
+	}
+	return resp
+}
+
+func verifC04Flow(args []vsx) vsx {
+	sc := c04ParseScenario(args)
+	var handled, sentOK atomic.Int64
+	var exited atomic.Bool
+	var exitResult error
+	if sc.exitErr {
+		exitResult = errors.New("exit status 1")
+	}
+	if sc.exitAfter == 0 {
+		exited.Store(true)
+	}
+	clientImpl := func(_ context.Context, _ []string, in io.ReadCloser, out, _ io.WriteCloser) error {
+		if sc.exitAfter == 0 {
+			return exitResult
+		}
+		got := 0
+		for {
+			var req conformancev1.ClientCompatRequest
+			if err := internal.ReadDelimitedMessage(in, &req, "runner", time.Hour, 1<<20); err != nil {
+				return exitResult // end of input
+			}
+			got++
+			if resp := c04Reply(req.TestName, sc.replies[req.TestName]); resp != nil {
+				if err := internal.WriteDelimitedMessage(out, resp); err != nil {
+					return err
+				}
+			}
+			if got == sc.exitAfter {
+				exited.Store(true)
+			}
+			handled.Add(1)
+			if got == sc.exitAfter {
+				return exitResult
+			}
+		}
+	}
+	serverImpl := func(ok bool) processStarter {
+		return runInProcess([]string{"fake-server"}, func(ctx context.Context, _ []string, in io.ReadCloser, out, _ io.WriteCloser) error {
+			if !ok {
+				return errors.New("cannot start")
+			}
+			var req conformancev1.ServerCompatRequest
+			if err := internal.ReadDelimitedMessage(in, &req, "runner", time.Hour, 1<<20); err != nil {
+				return err
+			}
+			if err := internal.WriteDelimitedMessage(out, &conformancev1.ServerCompatResponse{Host: "127.0.0.1", Port: 9}); err != nil {
+				return err
+			}
+			<-ctx.Done()
+			return nil
+		})
+	}
+
+	total := 0
+	for _, b := range sc.batches {
+		total += len(b)
+	}
+	results := newResults(total, c04Trie(sc.kf), c04Trie(sc.kfl), nil)
+	ctx, cancel := context.WithCancel(context.Background())
+	defer cancel()
+	client, err := runClient(ctx, runInProcess([]string{"fake-client"}, clientImpl))
+	if err != nil {
+		return vErr("client-did-not-start")
+	}
+	defer client.stop()
+	cpr, _ := client.(*clientProcessRunner)
+	if cpr == nil {
+		return vErr("unexpected-client-runner-type")
+	}
+	logPr := &c04Printer{hook: func(msg string) {
+		if !strings.HasPrefix(msg, "Sending request for ") {
+			return
+		}
+		// everything sent so far has been dealt with by the client
+		for handled.Load() < sentOK.Load() {
+			time.Sleep(20 * time.Microsecond)
+		}
+		if exited.Load() {
+			<-cpr.done // its output has been drained and the send side is closed
+			return
+		}
+		sentOK.Add(1)
+	}}
+	errPr := &c04Printer{}
+	var runErr error
+	for i, names := range sc.batches {
+		// as run(): double-check that client is still running before spawning a server process
+		if !client.isRunning() {
+			runErr = client.waitForResponses()
+			if runErr == nil {
+				runErr = errors.New("client process unexpectedly stopped")
+			}
+			break
+		}
+		runTestCasesForServer(ctx, false, false, serverInstance{}, c04Cases(names), nil, nil,
+			serverImpl(sc.serverOK[i]), logPr, errPr, results, client, nil, true)
+	}
+	if runErr == nil {
+		client.closeSend()
+		runErr = client.waitForResponses()
+	}
+	logPr.take()
+	repRet := results.report(logPr)
+	ok := repRet && runErr == nil // Run: results.report(logPrinter) && err == nil
+	status := 0
+	if !ok {
+		status = 1 // main: os.Exit(1)
+	}
+	return vL(vBool(ok), vInt(status), c04ParseReport(repRet, logPr.take()))
+}
+
+// ---------------------------------------------------------------------------
+// c04.run: the real Run() — flags, config file, suite files, known-failing /
+// known-flaky patterns, client and server as separate OS processes (this test
+// binary re-executed, see TestVerifC04Child) — and its (ok, err) result, i.e. the
+// real `results.report(logPrinter) && err == nil`.  Batches are server instances
+// (HTTP version x protocol, in the sorted order Verbose gives); the model name of
+// a case is <suite>/<case>, suite B<i> being relevant to the i-th instance only.
+// ---------------------------------------------------------------------------
+
+var c04Instances = []struct {
+	version  conformancev1.HTTPVersion
+	protocol conformancev1.Protocol
+}{
+	{conformancev1.HTTPVersion_HTTP_VERSION_1, conformancev1.Protocol_PROTOCOL_CONNECT},
+	{conformancev1.HTTPVersion_HTTP_VERSION_1, conformancev1.Protocol_PROTOCOL_GRPC_WEB},
+	{conformancev1.HTTPVersion_HTTP_VERSION_2, conformancev1.Protocol_PROTOCOL_CONNECT},
+	{conformancev1.HTTPVersion_HTTP_VERSION_2, conformancev1.Protocol_PROTOCOL_GRPC_WEB},
+}
+
+// full permutation name -> <suite>/<case>
+func c04ModelName(full string) string {
+	i := strings.Index(full, "/")
+	j := strings.Index(full, "/TLS:false/")
+	if i < 0 || j < 0 {
+		return full
+	}
+	return full[:i] + "/" + full[j+len("/TLS:false/"):]
+}
+
+func c04Pattern(model string) string {
+	i := strings.Index(model, "/")
+	return model[:i] + "/**/" + model[i+1:]
+}
+
+func verifC04Run(args []vsx) vsx {
+	sc := c04ParseScenario(args)
+	if len(sc.batches) > len(c04Instances) || sc.exitAfter >= 0 {
+		return vL(vS("bad-case"))
+	}
+	dir, err := os.MkdirTemp("", "verif-c04-")
+	if err != nil {
+		panic(err)
+	}
+	defer os.RemoveAll(dir)
+	var script strings.Builder
+	var files []string
+	for i, names := range sc.batches {
+		inst := c04Instances[i]
+		suiteName := fmt.Sprintf("B%d", i)
+		suite := &conformancev1.TestSuite{
+			Name:                 suiteName,
+			RelevantProtocols:    []conformancev1.Protocol{inst.protocol},
+			RelevantHttpVersions: []conformancev1.HTTPVersion{inst.version},
+			RelevantCodecs:       []conformancev1.Codec{conformancev1.Codec_CODEC_PROTO},
+			RelevantCompressions: []conformancev1.Compression{conformancev1.Compression_COMPRESSION_IDENTITY},
+		}
+		for _, n := range names {
+			if !strings.HasPrefix(n, suiteName+"/") {
+				return vL(vS("bad-case"))
+			}
+			tc := c04Case(strings.TrimPrefix(n, suiteName+"/"))
+			suite.TestCases = append(suite.TestCases, tc)
+			fmt.Fprintf(&script, "reply %s %d\n", n, sc.replies[n])
+		}
+		ok := 0
+		if sc.serverOK[i] {
+			ok = 1
+		}
+		fmt.Fprintf(&script, "server %d %d %d\n", inst.version, inst.protocol, ok)
+		data, err := protojson.Marshal(suite)
+		if err != nil {
+			panic(err)
+		}
+		file := filepath.Join(dir, suiteName+".yaml")
+		if err := os.WriteFile(file, data, 0o600); err != nil {
+			panic(err)
+		}
+		files = append(files, file)
+	}
+	exitCode := 0
+	if sc.exitErr {
+		exitCode = 1
+	}
+	fmt.Fprintf(&script, "exit %d\n", exitCode)
+	scriptFile := filepath.Join(dir, "script")
+	if err := os.WriteFile(scriptFile, []byte(script.String()), 0o600); err != nil {
+		panic(err)
+	}
+	config := &conformancev1.Config{Features: &conformancev1.Features{
+		Versions:                    []conformancev1.HTTPVersion{conformancev1.HTTPVersion_HTTP_VERSION_1, conformancev1.HTTPVersion_HTTP_VERSION_2},
+		Protocols:                   []conformancev1.Protocol{conformancev1.Protocol_PROTOCOL_CONNECT, conformancev1.Protocol_PROTOCOL_GRPC_WEB},
+		Codecs:                      []conformancev1.Codec{conformancev1.Codec_CODEC_PROTO},
+		Compressions:                []conformancev1.Compression{conformancev1.Compression_COMPRESSION_IDENTITY},
+		StreamTypes:                 []conformancev1.StreamType{conformancev1.StreamType_STREAM_TYPE_UNARY},
+		SupportsH2C:                 proto.Bool(true),
+		SupportsTls:                 proto.Bool(false),
+		SupportsConnectGet:          proto.Bool(false),
+		SupportsMessageReceiveLimit: proto.Bool(false),
+	}}
+	cfgData, err := protojson.Marshal(config)
+	if err != nil {
+		panic(err)
+	}
+	cfgFile := filepath.Join(dir, "config.yaml")
+	if err := os.WriteFile(cfgFile, cfgData, 0o600); err != nil {
+		panic(err)
+	}
+	patterns := func(names []string) []string {
+		out := make([]string, len(names))
+		for i, n := range names {
+			out[i] = c04Pattern(n)
+		}
+		return out
+	}
+	child := func(role string) []string {
+		return []string{os.Args[0], "-test.run=^TestVerifC04Child$", "c04:" + role, scriptFile}
+	}
+	logPr, errPr := &c04Printer{}, &c04Printer{}
+	ok, err := Run(&Flags{
+		ConfigFile:           cfgFile,
+		TestFiles:            files,
+		KnownFailingPatterns: patterns(sc.kf),
+		KnownFlakyPatterns:   patterns(sc.kfl),
+		Verbose:              true, // server instances in sorted order
+		ClientCommand:        child("client"),
+		ServerCommand:        child("server"),
+		MaxServers:           1,
+		Parallelism:          1,
+	}, logPr, errPr)
+	if err != nil {
+		return vL(vS("err"), vS("run-returned-error"), vS(err.Error()))
+	}
+	msgs := logPr.take()
+	for i, m := range msgs {
+		// project the names in FAILED / INFO lines onto model names
+		for _, pfx := range []string{"FAILED: ", "INFO: "} {
+			if strings.HasPrefix(m, pfx) {
+				rest := strings.TrimPrefix(m, pfx)
+				end := strings.IndexAny(rest, " :") // case names here have neither
+				if j := strings.Index(rest, "/TLS:false/"); j >= 0 {
+					k := j + len("/TLS:false/")
+					end = k + strings.IndexAny(rest[k:], " :")
+				}
+				msgs[i] = pfx + c04ModelName(rest[:end]) + rest[end:]
+			}
+		}
+	}
+	status := 0
+	if !ok {
+		status = 1
+	}
+	rep := c04ParseReport(ok, msgs)
+	if len(rep.l) != 8 {
+		return rep
+	}
+	// Run does not expose report()'s own return value: the first field of the report part
+	// carries the verdict on both sides.
+	return vL(vBool(ok), vInt(status), rep)
+}
+
+// TestVerifC04Child is the scripted client / server process of c04.run.
+func TestVerifC04Child(t *testing.T) {
+	var role, scriptFile string
+	for i, a := range os.Args {
+		if strings.HasPrefix(a, "c04:") && i+1 < len(os.Args) {
+			role, scriptFile = strings.TrimPrefix(a, "c04:"), os.Args[i+1]
+		}
+	}
+	if role == "" {
+		t.Skip("not a c04 child")
+	}
+	data, err := os.ReadFile(scriptFile)
+	if err != nil {
+		os.Exit(3)
+	}
+	replies := map[string]int64{}
+	servers := map[[2]int]bool{}
+	exitCode := 0
+	for _, line := range strings.Split(string(data), "\n") {
+		var name string
+		var a, b, c int
+		if n, _ := fmt.Sscanf(line, "reply %s %d", &name, &a); n == 2 {
+			replies[name] = int64(a)
+		} else if n, _ := fmt.Sscanf(line, "server %d %d %d", &a, &b, &c); n == 3 {
+			servers[[2]int{a, b}] = c != 0
+		} else if n, _ := fmt.Sscanf(line, "exit %d", &a); n == 1 {
+			exitCode = a
+		}
+	}
+	switch role {
+	case "server":
+		var req conformancev1.ServerCompatRequest
+		if err := internal.ReadDelimitedMessage(os.Stdin, &req, "runner", time.Minute, 1<<20); err != nil {
+			os.Exit(3)
+		}
+		if !servers[[2]int{int(req.HttpVersion), int(req.Protocol)}] {
+			os.Exit(1) // fails to start
+		}
+		if err := internal.WriteDelimitedMessage(os.Stdout, &conformancev1.ServerCompatResponse{Host: "127.0.0.1", Port: 9}); err != nil {
+			os.Exit(3)
+		}
+		time.Sleep(time.Minute) // until the runner terminates it
+		os.Exit(0)
+	case "client":
+		for {
+			var req conformancev1.ClientCompatRequest
+			if err := internal.ReadDelimitedMessage(os.Stdin, &req, "runner", time.Minute, 1<<20); err != nil {
+				os.Exit(exitCode) // end of input
+			}
+			if resp := c04Reply(req.TestName, replies[c04ModelName(req.TestName)]); resp != nil {
+				if err := internal.WriteDelimitedMessage(os.Stdout, resp); err != nil {
+					os.Exit(3)
+				}
+			}
+		}
+	}
+	os.Exit(3)
 }
